@@ -1,4 +1,6 @@
 import LoguruModel.Props.C02
+import LoguruModel.Conc.ForkQueueLemmas
+import LoguruModel.Generated.Locks
 /-
 C15 – fork(): property theorems about the fork operation of `Conc.step` (acquire_locks in the
 forking thread: core lock, then every handler lock in an arbitrary order; `forked`; release_locks).
@@ -111,5 +113,148 @@ example :
     s.pc 2 = .k2 [0, 1] ∧ s.coreLock = some 2 ∧ (s.hs 0).lock = some 2 ∧ (s.hs 1).lock = some 2 ∧
       s.pc 1 = .lL 7 [1] [0] := by
   decide
+
+/-! ### enqueue handler with a bounded pipe (the system of defect F6) -/
+
+section ForkQueue
+open ForkQueue
+
+/-- DEADLOCK FREEDOM of the repaired lock order (every handler lock before every queue lock): for any
+pipe capacity ≥ 1, any number of emitters and forking threads and any schedule, whenever some thread
+has work to do, some thread that has work to do can move. -/
+theorem fork_queue_no_deadlock (c : Nat) (hc : 1 ≤ c) (sched : List (ForkQueue.Tid × ForkQueue.Lab))
+    (t : ForkQueue.Tid) (hm : mid (ForkQueue.run true { cap := c } sched) t) :
+    ∃ u lab, mid (ForkQueue.run true { cap := c } sched) u ∧
+      (ForkQueue.step true (ForkQueue.run true { cap := c } sched) u lab).isSome = true := by
+  have hi := ForkQueue.inv_run { cap := c } (ForkQueue.inv_init c) sched
+  have hcap : (ForkQueue.run true { cap := c } sched).cap = c := ForkQueue.run_cap true _ sched
+  generalize ForkQueue.run true { cap := c } sched = s at *
+  obtain ⟨pw, c1, c2, h1, h2, q1, q2, q3⟩ := hi
+  have wne : ∀ u, s.pc u ≠ .idle → u ≠ workerTid := by
+    intro u hu e; rw [e, pw] at hu; exact hu rfl
+  have prod : ∀ u lab, u ≠ workerTid → ForkQueue.step true s u lab = stepP true s u lab := by
+    intro u lab hu; simp [ForkQueue.step, hu]
+  have midp : ∀ u, u ≠ workerTid → s.pc u ≠ .idle → mid s u := by
+    intro u hu hp; simp [mid, hu, hp]
+  -- case analysis on the queue lock
+  cases hq : s.lockQ with
+  | some u =>
+    rcases q3 u hq with ⟨e, hw⟩ | ⟨hu, hp⟩
+    · subst e
+      refine ⟨workerTid, .writeRel, by simp [mid, hw], ?_⟩
+      simp [ForkQueue.step, stepW, hw]
+    · refine ⟨u, .relQ, midp u hu (by rw [hp]; simp), ?_⟩
+      rw [prod u _ hu]; simp [stepP, hp]
+  | none =>
+    -- the queue lock is free
+    cases hh : s.lockH with
+    | some u =>
+      obtain ⟨hu, hhold⟩ := h2 u hh
+      have hmid : mid s u := midp u hu (by intro e; rw [e] at hhold; simp [holdsHt] at hhold)
+      cases hp : s.pc u <;> rw [hp] at hhold <;> simp [holdsHt] at hhold
+      · -- e1: holds _lock, wants to put
+        by_cases hfull : s.pipe < s.cap
+        · exact ⟨u, .put, hmid, by rw [prod u _ hu]; simp [stepP, hp, hfull]⟩
+        · -- pipe full: the writer has something to do and nobody holds the queue lock
+          have hpos : 0 < s.pipe := by
+            have : s.cap ≤ s.pipe := Nat.le_of_not_lt hfull
+            omega
+          cases hw : s.w with
+          | w0 => exact ⟨workerTid, .get, by simp [mid, hpos], by simp [ForkQueue.step, stepW, hw, hpos]⟩
+          | w1 => exact ⟨workerTid, .acqQ, by simp [mid, hw], by simp [ForkQueue.step, stepW, hw, hq]⟩
+          | w2 => have := q2 hw; rw [hq] at this; cases this
+      · exact ⟨u, .relH, hmid, by rw [prod u _ hu]; simp [stepP, hp]⟩
+      · exact ⟨u, .acqSecond, hmid, by rw [prod u _ hu]; simp [stepP, hp, hq]⟩
+      · have := q1 u hu hp; rw [hq] at this; cases this
+      · exact ⟨u, .relHf, hmid, by rw [prod u _ hu]; simp [stepP, hp]⟩
+    | none =>
+      -- both sink-side locks are free
+      cases hcl : s.coreLock with
+      | some u =>
+        obtain ⟨hu, hhold⟩ := c2 u hcl
+        have hmid : mid s u := midp u hu (by intro e; rw [e] at hhold; simp [holdsC] at hhold)
+        cases hp : s.pc u <;> rw [hp] at hhold <;> simp [holdsC] at hhold
+        · exact ⟨u, .acqFirst, hmid, by rw [prod u _ hu]; simp [stepP, hp, hh]⟩
+        · have := h1 u hu (by rw [hp]; rfl); rw [hh] at this; cases this
+        · have := h1 u hu (by rw [hp]; rfl); rw [hh] at this; cases this
+        · have := h1 u hu (by rw [hp]; rfl); rw [hh] at this; cases this
+        · exact ⟨u, .relCore, hmid, by rw [prod u _ hu]; simp [stepP, hp]⟩
+      | none =>
+        by_cases ht : t = workerTid
+        · subst ht
+          simp only [mid, if_true] at hm
+          cases hw : s.w with
+          | w0 =>
+            have hpos : 0 < s.pipe := by rcases hm with h | h; exact absurd hw h; exact h
+            exact ⟨workerTid, .get, by simp [mid, hpos], by simp [ForkQueue.step, stepW, hw, hpos]⟩
+          | w1 => exact ⟨workerTid, .acqQ, by simp [mid, hw], by simp [ForkQueue.step, stepW, hw, hq]⟩
+          | w2 => have := q2 hw; rw [hq] at this; cases this
+        · have hp0 : s.pc t ≠ .idle := by simpa [mid, ht] using hm
+          cases hp : s.pc t
+          · exact absurd hp hp0
+          · exact ⟨t, .acqH, hm, by rw [prod t _ ht]; simp [stepP, hp, hh]⟩
+          · have := h1 t ht (by rw [hp]; rfl); rw [hh] at this; cases this
+          · have := h1 t ht (by rw [hp]; rfl); rw [hh] at this; cases this
+          · exact ⟨t, .acqCore, hm, by rw [prod t _ ht]; simp [stepP, hp, hcl]⟩
+          · have := c1 t ht (by rw [hp]; rfl); rw [hcl] at this; cases this
+          · have := c1 t ht (by rw [hp]; rfl); rw [hcl] at this; cases this
+          · have := c1 t ht (by rw [hp]; rfl); rw [hcl] at this; cases this
+          · have := c1 t ht (by rw [hp]; rfl); rw [hcl] at this; cases this
+          · have := c1 t ht (by rw [hp]; rfl); rw [hcl] at this; cases this
+
+/-- …whereas with the opposite order (queue lock before handler lock – what the WeakSet iteration
+could produce before the repair) the wait cycle of defect F6 is reachable: the emitter (thread 2)
+holds `_lock` and is blocked on the full pipe, the writer thread (0) has taken a message and waits
+for `_queue_lock`, the forking thread (3) holds `_queue_lock` and waits for `_lock`.  All three
+have work to do and none of them has any enabled transition. -/
+theorem fork_queue_deadlock_witness :
+    let sched : List (ForkQueue.Tid × ForkQueue.Lab) := [
+      (2, .startEmit), (2, .acqH), (2, .put), (2, .relH),
+      (0, .get),
+      (2, .startEmit), (2, .acqH), (2, .put), (2, .relH),
+      (2, .startEmit), (2, .acqH),
+      (3, .startFork), (3, .acqCore), (3, .acqFirst)]
+    let s := ForkQueue.run false { cap := 1 } sched
+    s.pc 2 = .e1 ∧ s.pc 3 = .f2 ∧ s.w = .w1 ∧ s.pipe = 1 ∧
+    (∀ lab ∈ ForkQueue.Lab.all, ForkQueue.step false s 0 lab = none ∧ ForkQueue.step false s 2 lab = none ∧
+      ForkQueue.step false s 3 lab = none) := by
+  decide
+
+end ForkQueue
+
+/-! ### tie G: what `_locks_machinery.py` and the lock-creating call sites say now -/
+
+/-- the at-fork hooks are the modelled ones, and the order of `acquire_locks` / `release_locks` is the
+modelled one: logger locks, handler locks, queue locks – released in the opposite order -/
+theorem fork_order :
+    Locks.Gen.acquireOrder = ["logger_locks", "handler_locks", "queue_locks"] ∧
+    Locks.Gen.releaseOrder = Locks.Gen.acquireOrder.reverse ∧
+    Locks.Gen.hookBefore = "acquire_locks" ∧ Locks.Gen.hookAfterInParent = "release_locks" ∧
+    Locks.Gen.hookAfterInChild = "release_locks" := by decide
+
+/-- every `threading` lock of the package is created through a registering creator (the only bare
+`threading.Lock()` calls are inside the creators themselves), each creator registers in its own set,
+`Core.lock` is a logger lock, `Handler._lock` a handler lock, `Handler._queue_lock` a queue lock; the
+remaining locks are `multiprocessing` primitives (shared by fork, not copied) -/
+theorem all_locks_registered :
+    (∀ site ∈ Locks.Gen.lockSites, site.2.2.2 = "bare" → site.1 = "_locks_machinery.py") ∧
+    Locks.Gen.creators = [("create_handler_lock", "handler_locks"), ("create_logger_lock", "logger_locks"),
+      ("create_queue_lock", "queue_locks")] ∧
+    (∀ site ∈ Locks.Gen.lockSites, site.2.1 = "self.lock" → site.2.2.1 = "create_logger_lock") ∧
+    (∀ site ∈ Locks.Gen.lockSites, site.2.1 = "self._lock" → site.2.2.1 = "create_handler_lock") ∧
+    (∀ site ∈ Locks.Gen.lockSites, site.2.1 = "self._queue_lock" → site.2.2.1 = "create_queue_lock") ∧
+    (∀ site ∈ Locks.Gen.lockSites, site.2.2.2 = "mp" → site.2.1 = "self._confirmation_lock") := by
+  decide
+
+/-- the lock order of the CURRENT source is the one `fork_queue_no_deadlock` is proved for -/
+theorem current_order_is_handler_first : Locks.Gen.handlerFirst = true := by decide
+
+theorem fork_queue_no_deadlock_current (c : Nat) (hc : 1 ≤ c) (sched : List (ForkQueue.Tid × ForkQueue.Lab))
+    (t : ForkQueue.Tid) (hm : ForkQueue.mid (ForkQueue.run Locks.Gen.handlerFirst { cap := c } sched) t) :
+    ∃ u lab, ForkQueue.mid (ForkQueue.run Locks.Gen.handlerFirst { cap := c } sched) u ∧
+      (ForkQueue.step Locks.Gen.handlerFirst (ForkQueue.run Locks.Gen.handlerFirst { cap := c } sched) u lab).isSome
+        = true := by
+  rw [current_order_is_handler_first] at hm ⊢
+  exact fork_queue_no_deadlock c hc sched t hm
 
 end C15
